@@ -104,6 +104,7 @@ func (n *Node) getNext(level int) (*Node, bool) {
 	nodeRefAddr := uintptr(unsafe.Pointer(n)) + nodeHdrSize + nodeRefSize*uintptr(level)
 	wordAddr := (*uint64)(unsafe.Pointer(nodeRefAddr + uintptr(7)))
 
+	vyield(SiteGetNext)
 	v := atomic.LoadUint64(wordAddr)
 	deleted := v&deletedFlag == deletedFlag
 	ptr := (*Node)(unsafe.Pointer(uintptr(v >> 8)))
@@ -128,6 +129,7 @@ func (n *Node) dcasNext(level int, prevPtr, newPtr *Node, prevIsdeleted, newIsde
 		newVal |= deletedFlag
 	}
 
+	vyield(SiteDcasNext)
 	swapped := atomic.CompareAndSwapUint64(wordAddr, prevVal, newVal)
 
 	// This is required to make go1.5+ concurrent garbage collector happy
